@@ -38,7 +38,8 @@ func (m *JCModel) Distance(seq1 []uint8, seq2 []uint8, weights []float64) (float
 	} else {
 		dist = -.75 * math.Log(b)
 	}
-	if dist > 0 {
+	// An undefined distance (saturation, no comparable site) stays NaN
+	if dist > 0 || math.IsNaN(dist) {
 		return dist, nil
 	} else {
 		return 0, nil
